@@ -26,4 +26,4 @@ require (
 	golang.org/x/text v0.24.0 // indirect
 )
 
-replace github.com/gofiber/fiber/v3 => /tmp/repoclean
+replace github.com/gofiber/fiber/v3 => /repo
